@@ -163,7 +163,7 @@ DOWN_CFGS = [dict(to=8, **{"from": 16}), dict(to=8, **{"from": 32}), dict(to=8, 
 def tasks(tier):
     out = []
     d_up = 14 if tier == "quick" else 20
-    d_dn = 14 if tier == "quick" else 22
+    d_dn = 14 if tier == "quick" else 18
     small = dict(aw_to=3, Q=2, Qw=2, Qr=2)
     for cfg in UP_CFGS[:1] if tier == "quick" else UP_CFGS:
         base = dict(cfg, depth=d_up, **small)
@@ -172,11 +172,11 @@ def tasks(tier):
                         timeout_ms=600000, difftest_cycles=80))
         # restricted to ascending chunks inside a wide word: the remaining behaviours
         out.append(dict(fn="conv_contract", cfg=dict(base, ascending_within_wide_word=True), modes=["bounded", "cover"],
-                        depth=d_up, weight=40, timeout_ms=1500000, oneshot=True))
+                        depth=d_up, weight=40, timeout_ms=2700000, oneshot=True))
     for cfg in DOWN_CFGS[:1] if tier == "quick" else DOWN_CFGS:
         cfg2 = dict(cfg, depth=d_dn, **small)
         out.append(dict(fn="conv_contract", cfg=cfg2, modes=["bounded", "cover", "difftest"], depth=d_dn, weight=30,
-                        timeout_ms=1500000, difftest_cycles=80, oneshot=True))
+                        timeout_ms=2400000, difftest_cycles=80, oneshot=True))
     for cfg in DOWN_CFGS:
         out.append(dict(fn="down_cmd_contract", cfg=cfg, modes=["inductive", "cover", "difftest"], weight=2))
     return out
